@@ -115,6 +115,13 @@ Verdict(rec) ==
                ELSE IF PartOpt(C, WP) # OptV THEN <<"viol", "C06:partition-admits-optimum">>
                ELSE IF Aux.auxlogged = 1 /\ ((rec.opt = 1) # (rec.auxcalls = 0))
                     THEN <<"viol", "C06:flag-iff-no-delegation">>
+               \* beyond the property (parcons.py): a component whose pairs can all be tied at minimal cost is not handed
+               \* to any algorithm, it becomes ONE bucket of the consensus; the reported groups are the strongly
+               \* connected components of the graph of elements in a topological order
+               ELSE IF \E g \in DOMAIN WP : CanBeAllTied(C, WP[g]) /\ ~\E b \in DOMAIN K[1] : K[1][b] = WP[g]
+                    THEN <<"drift", "parcons-tieable-component-is-not-one-bucket">>
+               ELSE IF n <= 6 /\ ~(\E o \in TopoOrders(C, U) : o = WP)
+                    THEN <<"drift", "parcons-groups-are-not-the-components-in-topological-order">>
                ELSE <<"ok", "parcons">>
         \* ------------------------------------------------------------ C08
         V08 == IF ~IsBio(rec.cfg) THEN <<"skip", "not-bioconsert">>
